@@ -639,7 +639,11 @@ func (w *ksWorld) serveAdaptor(app *fiber.App, conn *harness.Conn, r *ksReq) str
 	}
 	hr.RemoteAddr = conn.RemoteIP() + ":40000"
 	rec := httptest.NewRecorder()
-	adaptor.FiberApp(app)(rec, hr)
+	var rw http.ResponseWriter = rec
+	if w.yield {
+		rw = &ksSlowWriter{ResponseRecorder: rec} // a client that takes its time
+	}
+	adaptor.FiberApp(app)(rw, hr)
 	var hs []string
 	for k, vs := range rec.Header() {
 		for _, v := range vs {
@@ -656,6 +660,17 @@ func (w *ksWorld) serveAdaptor(app *fiber.App, conn *harness.Conn, r *ksReq) str
 	}
 	sort.Strings(hs)
 	return fmt.Sprintf("%d|%s|%q", rec.Code, strings.Join(hs, "\n"), rec.Body.String())
+}
+
+// ksSlowWriter: the net/http side may block while the response is written (other requests are served meanwhile).
+type ksSlowWriter struct {
+	*httptest.ResponseRecorder
+}
+
+func (w *ksSlowWriter) WriteHeader(code int) {
+	simrt.Yield(710)
+	simrt.Sleep(time.Millisecond)
+	w.ResponseRecorder.WriteHeader(code)
 }
 
 func ksGenerate(s *simrt.Sim, nconn int, flashValid string) []*ksReq {
